@@ -157,6 +157,7 @@ theorem norec_step (s : St) (t : Nat) (h : ZInv s) (hn : NoRec s.free ∧ NoRec 
     · exact ⟨hn.1, hq⟩
   · exact hn
   · exact hn
+  · exact hn
   · exact ⟨noRec_nonstep _ _ (by intro u e; cases e) hn.1, hn.2⟩
   · dsimp only
     split
@@ -167,6 +168,7 @@ theorem norec_step (s : St) (t : Nat) (h : ZInv s) (hn : NoRec s.free ∧ NoRec 
     split
     · exact ⟨ack _ hf, hn.2⟩
     · exact ⟨hf, hn.2⟩
+  · exact hn
   · exact hn
 
 theorem norec_apply (s : St) (a : Act) (h : ZInv s) (hn : NoRec s.free ∧ NoRec s.q) :
